@@ -20,7 +20,18 @@ static int vp_snprintf(char *b, size_t n, const char *fmt, ...) { (void)b; (void
 #include "parsec/class/parsec_hash_table.h"
 static uint64_t parsec_hash_table_universal_rehash(parsec_key_t key, int nb_bits);
 #endif
+#ifdef VP_ATOMIC_RESIZE
+/* Engine S, resize scenarios: spec.py renames the definition of parsec_hash_table_resize to vp_real_resize; the calls reach
+ * it through a function pointer, i.e. the body of resize (which runs under the table WRITE lock) executes atomically:
+ * interleavings inside resize are not explored there, everything around it (the decision, wrlock, the re-check) is. */
+#include "parsec/class/parsec_hash_table.h"
+static void parsec_hash_table_resize(parsec_hash_table_t *ht);
+#endif
 #include "parsec/class/parsec_hash_table.c"
+#ifdef VP_ATOMIC_RESIZE
+static void (*volatile vp_fp_resize)(parsec_hash_table_t*) = vp_real_resize;
+static void parsec_hash_table_resize(parsec_hash_table_t *ht) { vp_fp_resize(ht); }
+#endif
 #undef malloc
 #undef free
 #undef snprintf
